@@ -3,6 +3,7 @@ import PpciVerif.Spec.Link
 import PpciVerif.Proofs.Linker
 import PpciVerif.Proofs.LinkerLayout
 import PpciVerif.Proofs.LinkerIff
+import PpciVerif.Proofs.LinkerFull
 /-!
 # C12 — the linker places sections correctly and preserves their contents
 
@@ -103,6 +104,7 @@ theorem symbol_values (inp : LinkInput) (out : Obj) (tr : List ObjTrace)
       q.1.value = some v → q.1.sect = some n →
       ∃ off sec y, dictGet p.2.offsets n = some off ∧ getSec out.sections n = some sec ∧
         out.symbols[q.2]? = some y ∧ y.name = q.1.name ∧ y.binding = q.1.binding ∧
+        y.value = some (off + v) ∧ y.sect = some n ∧
         getSymbolIdValue out q.2 = .ok (sec.address + off + v) := by
   obtain ⟨d1, d2, li⟩ := linkT_inv h
   have f := link_facts li
@@ -128,7 +130,7 @@ theorem symbol_values (inp : LinkInput) (out : Obj) (tr : List ObjTrace)
   cases hg : getSec out.sections n with
   | none => rw [hg] at hsome; cases hsome
   | some sec =>
-    refine ⟨off, sec, y, ho, rfl, hy, h1, h2, ?_⟩
+    refine ⟨off, sec, y, ho, rfl, hy, h1, h2, hyv, hys, ?_⟩
     rw [getSymbolIdValue_of f.idinv hy hyv hys hg]
     congr 1; omega
 
@@ -141,13 +143,20 @@ theorem offsets_lookup (o : Obj) (t : ObjTrace) (hs : TraceShape o t)
 
 /-! ### layout: placed sections are aligned, inside their memory, and do not overlap -/
 
-/-- After a successful link whose layout places every section at most once: one image per memory
+/-- A successful link has placed every section name at most once (`layout_sections` ends with that
+    check since the fix recorded in findings/C12.json). -/
+theorem placed_once (inp : LinkInput) (out : Obj) (tr : List ObjTrace) (h : linkT inp = .ok (out, tr)) :
+    (placedNames (memories inp)).Nodup := by
+  obtain ⟨d1, d2, li⟩ := linkT_inv h
+  exact li.placed_once
+
+/-- After a successful link, for ALL layouts: one image per memory
     (same name, address = memory location, the placed sections in order); every placed section has
     `address % alignment = 0`, starts at or after `mem.location` and ends at or before
     `mem.location + mem.size`; the sections of an image form an ascending chain (hence are pairwise
     non-overlapping). -/
 theorem layout_placement (inp : LinkInput) (out : Obj) (tr : List ObjTrace)
-    (h : linkT inp = .ok (out, tr)) (hnd : (placedNames (memories inp)).Nodup) :
+    (h : linkT inp = .ok (out, tr)) :
     All2 (fun m img =>
       img.name = m.name ∧ img.address = m.location ∧ img.sections = m.inputs.flatMap inputPlaced ∧
       (imageSections out.sections img).map (·.name) = img.sections ∧
@@ -157,7 +166,7 @@ theorem layout_placement (inp : LinkInput) (out : Obj) (tr : List ObjTrace)
       (imageSections out.sections img).Pairwise (fun a b => a.address + a.data.length ≤ b.address))
       (memories inp) out.images := by
   obtain ⟨d1, d2, li⟩ := linkT_inv h
-  have hall := link_images li hnd
+  have hall := link_images li
   refine hall.imp (fun m img ok => ⟨ok.name_eq, ok.addr_eq, ok.secs_eq, ok.present, fun s hs => ?_, chain_pairwise _ _ ok.chain⟩)
   have hb := chain_mem_bounds _ _ ok.chain s hs
   have ha := ok.aligned s hs
@@ -167,12 +176,12 @@ theorem layout_placement (inp : LinkInput) (out : Obj) (tr : List ObjTrace)
 /-- `Image.data` of every image of such a link succeeds and, restricted to a section of the image,
     equals the section. -/
 theorem image_data_restricts (inp : LinkInput) (out : Obj) (tr : List ObjTrace)
-    (h : linkT inp = .ok (out, tr)) (hnd : (placedNames (memories inp)).Nodup) :
+    (h : linkT inp = .ok (out, tr)) :
     ∀ img ∈ out.images, ∃ d, imageData out.sections img = .ok d ∧
       ∀ s ∈ imageSections out.sections img, Occurs d (s.address - img.address) s.data := by
   obtain ⟨d1, d2, li⟩ := linkT_inv h
   intro img hi
-  obtain ⟨m, _, ok⟩ := (link_images li hnd).mem_right img hi
+  obtain ⟨m, _, ok⟩ := (link_images li).mem_right img hi
   have hc : Chain img.address (imageSections out.sections img) := ok.addr_eq ▸ ok.chain
   obtain ⟨d, hd⟩ := (imageDataFrom_ok_iff _ _).2 hc
   exact ⟨d, hd, (imageDataFrom_spec _ _ _ hd).2⟩
@@ -236,26 +245,25 @@ theorem layout_symbol_definitions (inp : LinkInput) (out : Obj) (tr : List ObjTr
 
 /-! ### when does a link fail? -/
 
-/-- On well-formed requests (`Spec.Link.WF`: no dangling references inside an object, no zero
-    alignment, at most one entry point, no layout in a partial link, a well-formed layout that
-    places every section at most once) the link fails **iff** a global symbol is defined twice, or
-    (non-partial link) a referenced global symbol is never defined, or a memory needs more bytes
-    than it has — and then the error is a `CompilerError`.
-    `_partial`: for ill-formed requests nothing is claimed (see `link_fails_full`). -/
-theorem link_fails_iff_partial (inp : LinkInput) (wf : WF inp = true) :
+/-- **For ALL requests** (no well-formedness): a global symbol defined twice, a referenced global
+    symbol that is never defined (non-partial link), or a memory that needs more bytes than it has
+    (abstract placement of `Spec.Link`) makes the link fail. -/
+theorem link_fails_full (inp : LinkInput) (hbad : DupGlobal inp ∨ UndefGlobal inp ∨ Overfull inp) :
+    ∃ e, linkT inp = .error e :=
+  linkT_bad_fails inp hbad
+
+/-- Conversely, on well-formed requests (`Spec.Link.WF`: no dangling references inside an object,
+    no zero alignment, at most one entry point, no layout in a partial link, a well-formed layout that
+    places every section at most once) these are the *only* reasons: the link fails **iff** one of the
+    three conditions holds, and then with `CompilerError`.  (The converse cannot hold without `WF`:
+    ill-formed requests fail for other reasons, e.g. KeyError for a symbol in a missing section.) -/
+theorem link_fails_iff (inp : LinkInput) (wf : WF inp = true) :
     ((∃ e, linkT inp = .error e) ↔ DupGlobal inp ∨ UndefGlobal inp ∨ Overfull inp) ∧
     (∀ e, linkT inp = .error e → e = .CompilerError) :=
   linkT_fails_iff wf
 
-/-- Full statement (not proved): the three conditions make *every* request fail, also ill-formed
-    ones.  Missing: an invariant-based argument that does not rely on the other stages of the
-    link succeeding (for ill-formed requests the link fails anyway, but possibly earlier and with
-    a different exception class, e.g. KeyError for a symbol in a section its object lacks). -/
-def link_fails_full : Prop :=
-  ∀ inp : LinkInput, DupGlobal inp ∨ UndefGlobal inp ∨ Overfull inp → ∃ e, linkT inp = .error e
-
 /-- Success form: a well-formed request links iff none of the three conditions holds. -/
-theorem link_succeeds_iff_partial (inp : LinkInput) (wf : WF inp = true) :
+theorem link_succeeds_iff (inp : LinkInput) (wf : WF inp = true) :
     (∃ out tr, linkT inp = .ok (out, tr)) ↔ ¬ DupGlobal inp ∧ ¬ UndefGlobal inp ∧ ¬ Overfull inp := by
   have h := (linkT_fails_iff wf).1
   constructor
@@ -272,6 +280,48 @@ theorem link_succeeds_iff_partial (inp : LinkInput) (wf : WF inp = true) :
       · exact absurd x a
       · exact absurd x b
       · exact absurd x c
+
+/-! ### two-stage links: a (partially) linked object linked again -/
+
+/-- Contents survive a second link: if `p` is the result of a first link and is one of the objects
+    of a second link (alone — "re-linking a partial output" — or together with further objects and a
+    layout), every *original* input section still stands unchanged in the final output section of
+    the same name, at offset (offset of `p`'s section in the second link) + (its offset in the first). -/
+theorem two_stage_content_preserved (inp1 inp2 : LinkInput) (p q : Obj) (tr1 tr2 : List ObjTrace)
+    (h1 : linkT inp1 = .ok (p, tr1)) (hp : p ∈ inp2.objs) (h2 : linkT inp2 = .ok (q, tr2)) :
+    ∀ r1 ∈ traceRecs inp1.objs tr1, ∃ r2 ∈ traceRecs inp2.objs tr2, ∃ sec,
+      r2.piece ∈ p.sections ∧ r2.piece.name = r1.piece.name ∧
+      getSec q.sections r1.piece.name = some sec ∧ Occurs sec.data (r2.off + r1.off) r1.piece.data := by
+  intro r1 hr1
+  obtain ⟨⟨sec1, hs1, ho1⟩, _⟩ := content_preserved inp1 p tr1 h1 r1 hr1
+  have hmem : sec1 ∈ pieces inp2 := List.mem_flatMap.2 ⟨p, hp, getSec_mem hs1⟩
+  rw [← (trace_enumerates_pieces inp2 q tr2 h2).2.1] at hmem
+  obtain ⟨r2, hr2, e2⟩ := List.mem_map.1 hmem
+  obtain ⟨⟨sec, hs, ho⟩, _⟩ := content_preserved inp2 q tr2 h2 r2 hr2
+  have hname : r2.piece.name = r1.piece.name := by rw [e2]; exact getSec_some_name hs1
+  rw [e2] at ho
+  refine ⟨r2, hr2, sec, by rw [e2]; exact getSec_mem hs1, hname, by rw [← hname]; exact hs, ho.trans ho1⟩
+
+/-- Symbols survive a second link: a defined symbol of the first link (value `v` in section `n`)
+    resolves, after the second link, to final address of `n` + offset of `p`'s section `n` in the
+    second link + its offset in the first link + `v`. -/
+theorem two_stage_symbol_values (inp1 inp2 : LinkInput) (p q : Obj) (tr1 tr2 : List ObjTrace)
+    (h1 : linkT inp1 = .ok (p, tr1)) (hp : p ∈ inp2.objs) (h2 : linkT inp2 = .ok (q, tr2)) :
+    ∀ a ∈ inp1.objs.zip tr1, ∀ s ∈ a.1.symbols.zip a.2.symIds, ∀ v n,
+      s.1.value = some v → s.1.sect = some n →
+      ∃ t2 id2 off1 off2 sec y, (p, t2) ∈ inp2.objs.zip tr2 ∧
+        dictGet a.2.offsets n = some off1 ∧ dictGet t2.offsets n = some off2 ∧
+        getSec q.sections n = some sec ∧ q.symbols[id2]? = some y ∧ y.name = s.1.name ∧
+        y.binding = s.1.binding ∧ getSymbolIdValue q id2 = .ok (sec.address + off2 + (off1 + v)) := by
+  intro a ha s hs v n hv hn
+  obtain ⟨off1, _, y1, ho1, _, hy1, hn1, hb1, hv1, hs1, _⟩ := symbol_values inp1 p tr1 h1 a ha s hs v n hv hn
+  have hshape := (trace_enumerates_pieces inp2 q tr2 h2).1
+  obtain ⟨t2, hpt⟩ := exists_zip_right hp hshape.length_eq
+  have hy1mem : y1 ∈ p.symbols := List.mem_of_getElem? hy1
+  obtain ⟨id2, hyid⟩ := exists_zip_right hy1mem (hshape.of_mem_zip _ hpt).2.symm
+  obtain ⟨off2, sec, y, ho2, hsec, hy, hn2, hb2, _, _, hval⟩ :=
+    symbol_values inp2 q tr2 h2 (p, t2) hpt (y1, id2) hyid (off1 + v) n hv1 hs1
+  exact ⟨t2, id2, off1, off2, sec, y, hpt, ho1, ho2, hsec, hy, hn2.trans hn1, hb2.trans hb1, hval⟩
 
 /-! ### concrete instances: hypotheses are satisfiable, guards are necessary (tests, labelled as such) -/
 
@@ -326,13 +376,19 @@ example : DupGlobal { exOK with objs := [oA, oB, oC, oA] } := by decide +kernel
 example : view (linkT { exOK with layout := none, partialLink := true }) = ("ok",
     [("code", 0, 8, [1, 2, 3, 4, 5, 0, 0, 0, 6, 7, 8, 0, 10]), ("data", 0, 4, [9, 9])]) := by decide +kernel
 
-/-- The hypothesis "every section is placed at most once" of `layout_placement` is necessary: with
-    `code` placed in two memories the link succeeds, but `code` ends up at 0x200, outside the first
-    memory [0x100, 0x110) whose image still lists it.  (Ill-formed layout; the model mirrors the code.) -/
+/-- re-linking that partial output alone changes nothing (sections, symbols) -/
+example : (match linkT { exOK with layout := none, partialLink := true } with
+    | .ok (p, _) => (match linkT { objs := [p], partialLink := true } with
+        | .ok (q, _) => decide (q = p)
+        | .error _ => false)
+    | .error _ => false) = true := by decide +kernel
+
+/-- A layout that names `code` in two memories is rejected (before the fix the link succeeded with
+    `code` at 0x200 while the image of the first memory [0x100, 0x110) still listed it). -/
 example : view (linkT { objs := [oA], layout := some { memories :=
       [{ name := "m0", location := 0x100, size := 16, inputs := [.sect "code"] },
        { name := "m1", location := 0x200, size := 16, inputs := [.sect "code"] }] } }) =
-    ("ok", [("code", 0x200, 4, [1, 2, 3, 4, 5])]) := by decide +kernel
+    ("CompilerError", []) := by decide +kernel
 
 /-- The power-of-two hypothesis of `piece_address_aligned` is necessary: pieces with alignments 3
     and 3 give an output section of alignment 4; placed at 4, the second piece (offset 3) lands at
